@@ -23,7 +23,8 @@ Definition loop_rec (sc : script) (w : world) (t : N) (ev : fev) : world * erec 
       e_items := snd (process sc w t ev) ++ [ISample t (mask sc (fst (process sc w t ev)))] |}).
 
 Inductive step (sc : script) : world -> erec -> world -> Prop :=
-| S_start stage m w : step sc w (snd (start_rec sc stage m w)) (fst (start_rec sc stage m w))
+| S_start stage m w : (stage = 0 -> w_mod w m = mst0 (cfg sc m)) ->
+    step sc w (snd (start_rec sc stage m w)) (fst (start_rec sc stage m w))
 | S_boot w : step sc w (boot_rec sc w) w
 | S_loop w t ev f : fes_fetch (w_fes w) = Some (t, ev, f) ->
     step sc w (snd (loop_rec sc (set_fes w f) t ev)) (fst (loop_rec sc (set_fes w f) t ev)).
@@ -51,7 +52,25 @@ Lemma gen_inv sc (I : world -> list erec -> Prop) :
   forall w tr, Gen sc w tr -> I w tr.
 Proof. intros H0 H1. induction 1; eauto. Qed.
 
+Lemma app_split_mid {A} (a b pre post : list A) e : a ++ b = pre ++ e :: post ->
+  (exists post', a = pre ++ e :: post') \/ (exists pre', pre = a ++ pre' /\ b = pre' ++ e :: post).
+Proof.
+  revert pre. induction a as [|x a IH]; intros pre E; cbn [app] in E.
+  - right. exists pre. auto.
+  - destruct pre as [|p pre]; cbn [app] in E.
+    + injection E as <- E. left. exists a. reflexivity.
+    + injection E as <- E. destruct (IH pre E) as [(post' & ->)|(pre' & -> & H)].
+      * left. exists post'. reflexivity.
+      * right. exists pre'. auto.
+Qed.
+
 (* ---- start-up ---- *)
+Lemma mods_nodup sc : NoDup (mods sc).
+Proof.
+  unfold mods. apply Injective_map_NoDup; [|apply seq_NoDup].
+  intros a b H. apply Nnat.Nat2N.inj, H.
+Qed.
+
 Lemma start_one_eq sc stage m w tr :
   start_one sc stage m (w, tr) =
   if stage <? c_stages (cfg sc m) then (fst (start_rec sc stage m w), tr ++ [snd (start_rec sc stage m w)]) else (w, tr).
@@ -61,23 +80,54 @@ Proof.
 Qed.
 
 Lemma start_one_gen sc stage m acc : Gen sc (fst acc) (snd acc) ->
+  (stage = 0 -> w_mod (fst acc) m = mst0 (cfg sc m)) ->
   Gen sc (fst (start_one sc stage m acc)) (snd (start_one sc stage m acc)).
 Proof.
-  destruct acc as [w tr]. cbn [fst snd]. intros H. rewrite start_one_eq.
+  destruct acc as [w tr]. cbn [fst snd]. intros H Hf. rewrite start_one_eq.
   destruct (stage <? c_stages (cfg sc m)); cbn [fst snd]; [|exact H].
-  eapply G1; [exact H|apply S_start].
+  eapply G1; [exact H|apply S_start, Hf].
 Qed.
+
+Lemma start_one_oth sc stage m acc i : i <> m -> w_mod (fst (start_one sc stage m acc)) i = w_mod (fst acc) i.
+Proof.
+  intros Hi. destruct acc as [w tr]. rewrite start_one_eq. destruct (stage <? c_stages (cfg sc m)); cbn [fst]; [|reflexivity].
+  unfold start_rec. cbn [fst]. apply around_oth; [apply start_cb_ok|exact Hi].
+Qed.
+
+Lemma start_stage_gen sc stage : forall ms acc, NoDup ms -> Gen sc (fst acc) (snd acc) ->
+  (stage = 0 -> forall m, In m ms -> w_mod (fst acc) m = mst0 (cfg sc m)) ->
+  Gen sc (fst (fold_left (fun acc m => start_one sc stage m acc) ms acc))
+         (snd (fold_left (fun acc m => start_one sc stage m acc) ms acc)).
+Proof.
+  induction ms as [|m ms IH]; intros acc Hnd H Hf; cbn [fold_left]; [exact H|].
+  inversion Hnd as [|x l Hnin Hnd']; subst. apply IH; [exact Hnd'| |].
+  - apply start_one_gen; [exact H|]. intros E. apply Hf; [exact E|left; reflexivity].
+  - intros E m' Hin. rewrite start_one_oth; [apply Hf; [exact E|right; exact Hin]|].
+    intros ->. contradiction.
+Qed.
+
+Lemma stage_list_shape n : 1 <= n -> exists tl, stage_list n = 0 :: tl /\ Forall (fun st => st <> 0) tl.
+Proof.
+  intros Hn. unfold stage_list. destruct (N.to_nat n) as [|k] eqn:E; [lia|].
+  cbn [seq map]. exists (map N.of_nat (seq 1 k)). split; [reflexivity|].
+  apply Forall_forall. intros st Hin. apply in_map_iff in Hin. destruct Hin as (i & <- & Hi).
+  apply in_seq in Hi. lia.
+Qed.
+
+Lemma max_stage_ge1 sc : 1 <= max_stage sc.
+Proof. unfold max_stage. induction (s_mods sc) as [|c l IH]; cbn [fold_right]; lia. Qed.
 
 Lemma sim_start_gen sc : Gen sc (fst (sim_start sc (init_world sc))) (snd (sim_start sc (init_world sc))).
 Proof.
-  unfold sim_start.
-  assert (G : forall stages acc, Gen sc (fst acc) (snd acc) ->
+  unfold sim_start. destruct (stage_list_shape (max_stage sc) (max_stage_ge1 sc)) as (tl & -> & Htl).
+  cbn [fold_left].
+  assert (G : forall stages acc, Forall (fun st => st <> 0) stages -> Gen sc (fst acc) (snd acc) ->
               Gen sc (fst (fold_left (fun acc stage => fold_left (fun acc m => start_one sc stage m acc) (mods sc) acc) stages acc))
                      (snd (fold_left (fun acc stage => fold_left (fun acc m => start_one sc stage m acc) (mods sc) acc) stages acc))).
-  { induction stages as [|st stages IH]; intros acc H; cbn [fold_left]; [exact H|]. apply IH.
-    generalize (mods sc). intros ms. revert acc H. induction ms as [|m ms IHm]; intros acc H; cbn [fold_left]; [exact H|].
-    apply IHm, start_one_gen, H. }
-  apply G. cbn [fst snd]. apply G0.
+  { induction stages as [|st stages IH]; intros acc Hne H; cbn [fold_left]; [exact H|].
+    inversion Hne; subst. apply IH; [assumption|].
+    apply start_stage_gen; [apply mods_nodup|exact H|]. intros E. contradiction. }
+  apply G; [exact Htl|]. apply start_stage_gen; [apply mods_nodup|apply G0|]. intros _ m _. reflexivity.
 Qed.
 
 (* ---- the loop ---- *)
@@ -175,7 +225,7 @@ Qed.
 Lemma end_rec_oth sc now m w i : i <> m -> w_mod (fst (end_rec sc now m w)) i = w_mod w i.
 Proof.
   intros Hi. unfold end_rec. cbn [fst].
-  destruct (at_sim_end_ok (nmods sc) (cfg sc m) now m {| x_w := activate now m w; x_log := [] |}) as [[F _ _ _ _] _].
+  destruct (at_sim_end_ok (nmods sc) (cfg sc m) now m {| x_w := activate now m w; x_log := [] |}) as [[F _ _ _ _ _] _].
   rewrite deactivate_oth, F by exact Hi. cbn [x_w]. apply activate_oth, Hi.
 Qed.
 
@@ -194,8 +244,25 @@ Proof.
   cbn [x_log app] in Hl. rewrite Hl. apply Usr_Own, Ol.
 Qed.
 
-Lemma mods_nodup sc : NoDup (mods sc).
+
+(* every record of the trace is either produced by a step from a generated world, or it is the
+   tear-down record of a module m, produced from the world the earlier tear-downs left *)
+Theorem trace_cases sc pre e post : trace sc = pre ++ e :: post ->
+  (exists w1 w2, Gen sc w1 pre /\ step sc w1 e w2) \/
+  (exists w tr now ms1 m ms2, Gen sc w tr /\ fes_fetch (w_fes w) = None /\ mods sc = ms1 ++ m :: ms2 /\
+     pre = tr ++ snd (end_seq sc now ms1 w) /\ e = snd (end_rec sc now m (fst (end_seq sc now ms1 w)))).
 Proof.
-  unfold mods. apply Injective_map_NoDup; [|apply seq_NoDup].
-  intros a b H. apply Nnat.Nat2N.inj, H.
+  intros E. destruct (run_decomp sc) as (w & tr & HG & [(_ & Hf & now & Et & _)|(_ & Et & _)]).
+  - rewrite Et in E. destruct (app_split_mid _ _ _ _ _ E) as [(post' & Etr)|(pre' & -> & Eend)].
+    + left. eapply gen_split; eauto.
+    + right. destruct (end_seq_split sc now (mods sc) w pre' e post Eend) as (ms1 & m1 & ms2 & Ems & Epre & Ee).
+      exists w, tr, now, ms1, m1, ms2. subst. auto.
+  - left. rewrite Et in E. eapply gen_split; eauto.
+Qed.
+
+Lemma end_seq_mod sc now ms1 m ms2 w : mods sc = ms1 ++ m :: ms2 ->
+  w_mod (fst (end_seq sc now ms1 w)) m = w_mod w m.
+Proof.
+  intros Ems. apply end_seq_oth. pose proof (mods_nodup sc) as Hnd. rewrite Ems in Hnd.
+  apply NoDup_remove_2 in Hnd. intros C. apply Hnd. apply in_or_app. left. exact C.
 Qed.
